@@ -180,7 +180,7 @@ def make_cases(chk, work, rng):
                 for end in ("commit", "abort"):
                     add("gated", k, n, virt, cmds, label)
                     cases[-1]["end"] = end
-        plan = [("GenSpy", None, 30), ("GenPair", None, 30)] if quick else \
+        plan = [("GenSpy", None, 20), ("GenPair", 260, 20)] if quick else \
                [("GenSpy", None, 100), ("GenPair", None, 100), ("GenSpy2", 1500, 300)]
         for cfg, max_cover, nrandom in plan:
             dot = cfg + ".dot"
